@@ -20,7 +20,7 @@ func init() {
 	register(&PropSpec{
 		ID: "C04",
 		Explain: "Decides the link mechanism of ParseRealtime structurally: (LINK) every store to Trip.Vehicle / Vehicle.Trip targets and stores accumulator entries (never a temporary copy of a parsed entity) and happens after the entity loop, so no later merge can erase it; the two association tables are updated together with swapped key and value; on every path where an entity yields both a trip and a vehicle the pair is recorded; every association table is resolved in a loop over the accumulators; within a resolution iteration the links are stored before the entry is copied into the result; " +
-			"(GUARD) the entity parsers return a nil trip/vehicle only when the wire field is absent, so every expression of an association reaches the tables. " +
+			"(GUARD) the entity parsers return a nil trip/vehicle only when the wire field is absent, so every expression of an association reaches the tables; an identifier object is produced only for a descriptor that identifies something (every non-nil result of the descriptor-to-VehicleID conversion has ruled out the all-empty identifier), so empty descriptors do not share one identified entry. " +
 			"Equality of the content reached through the links with the list entries follows from the copies being taken after the links are stored (checked) plus C07. Not decided: feeds with several vehicles per trip (excluded).",
 		Rules: []Rule{
 			{Name: "LINK", Doc: "trip<->vehicle link discipline", MinInstances: 5, Run: runLinkRules},
